@@ -50,10 +50,24 @@ theorem checkpoint_table_ideal {α : Type} (toAurel : String → String) (var : 
   intro i _
   simp [ckCell, ht v hv, find_inj toAurel var hinj v hv]
 
+theorem activeRestarts_nil_iff (usechk : Bool) (cats : List Cat) (its : List Nat) :
+    activeRestarts usechk cats its = [] ↔ rowsOf usechk cats its = [] := by
+  constructor
+  · intro h
+    rw [List.eq_nil_iff_forall_not_mem]
+    intro p hp
+    have : p.2 ∈ activeRestarts usechk cats its := (mem_activeRestarts usechk cats its p.2).mpr ⟨p.1, hp⟩
+    rw [h] at this; cases this
+  · intro h
+    rw [List.eq_nil_iff_forall_not_mem]
+    intro r hr
+    obtain ⟨it, hit⟩ := (mem_activeRestarts usechk cats its r).mp hr
+    rw [h] at hit; cases hit
+
 /-- **`read_data(..., usecheckpoints=True)` on well-formed checkpoints, any number of
-restarts, any overlap of their checkpoint lists, any request** -/
+restarts, any overlap of their checkpoint lists, any request (duplicate names included)** -/
 theorem checkpoint_pipeline_lemma {α : Type} (toAurel : String → String) (cats : List Cat)
-    (hnd : (cats.map (·.num)).Nodup) (files : Nat → List (CFile α)) (var : List String) (hn : var.Nodup)
+    (hnd : (cats.map (·.num)).Nodup) (files : Nat → List (CFile α)) (var : List String)
     (hvar : var ≠ []) (hinj : ∀ a ∈ var, ∀ b ∈ var, toAurel a = toAurel b → a = b)
     (ht : ∀ v ∈ var, toAurel v ≠ "t") (rl : Nat) (cm : Nat → CMax)
     (A : Nat → Nat → String → Arr3 α) (tm : Nat → Nat → Nat)
@@ -61,23 +75,41 @@ theorem checkpoint_pipeline_lemma {α : Type} (toAurel : String → String) (cat
     (hgood : ∀ r it, pick true cats it = some r → GoodIt (cm r) (files r) it rl var (A r it) (tm r it))
     (its : List Nat) :
     readETData true cats none its (fun r l => readCheckpoints toAurel (files r) var l rl)
-      = if rowsOf true cats its = [] then none
-        else some ((rowsOf true cats its).map Prod.fst,
-                   aligned ("t" :: var.map toAurel) fun k =>
-                     (rowsOf true cats its).map fun p => ckCell toAurel var A tm p.2 k p.1) := by
-  have hkeys : ("t" :: var.map toAurel).Nodup := by
+      = some ((rowsOf true cats its).map Prod.fst,
+              aligned (if rowsOf true cats its = [] then [] else "t" :: var.eraseDups.map toAurel) fun k =>
+                (rowsOf true cats its).map fun p => some (ckCell toAurel var.eraseDups A tm p.2 k p.1)) := by
+  have hm : ∀ v, v ∈ var.eraseDups → v ∈ var := fun v h => List.mem_eraseDups.mp h
+  have hinj' : ∀ a ∈ var.eraseDups, ∀ b ∈ var.eraseDups, toAurel a = toAurel b → a = b :=
+    fun a ha b hb => hinj a (hm a ha) b (hm b hb)
+  have ht' : ∀ v ∈ var.eraseDups, toAurel v ≠ "t" := fun v hv => ht v (hm v hv)
+  have hkeys : ("t" :: var.eraseDups.map toAurel).Nodup := by
     refine List.nodup_cons.mpr ⟨?_, ?_⟩
-    · intro hm
-      obtain ⟨v, hv, e⟩ := List.mem_map.mp hm
-      exact ht v hv e
-    · exact (List.nodup_map_iff_inj_on hn).mpr (fun a ha b hb e => hinj a ha b hb e)
-  apply readETData_auto true cats hnd _ hkeys (ckCell toAurel var A tm)
-  intro r l hl hs hp
-  have hss := sortedSet_of_strict l hs
-  have := readCheckpoints_good toAurel (files r) var hn hvar hinj ht l rl (cm r)
-    (by rw [hss]; exact hcm r l hl hp) (A r) (tm r)
-    (by rw [hss]; intro iit hi; exact hgood r iit (hp iit hi))
-  rw [this, hss]
-  exact congrArg some (checkpoint_table_ideal toAurel var hinj ht A tm r l)
+    · intro hmem
+      obtain ⟨v, hv, e⟩ := List.mem_map.mp hmem
+      exact ht' v hv e
+    · exact (List.nodup_map_iff_inj_on (nodup_eraseDups_str var)).mpr (fun a ha b hb e => hinj' a ha b hb e)
+  rw [readETData_auto true cats hnd (fun _ => "t" :: var.eraseDups.map toAurel)
+    (ckCell toAurel var.eraseDups A tm) _ (by
+      intro r l hl hs hp
+      have hss := sortedSet_of_strict l hs
+      have := readCheckpoints_good toAurel (files r) var hvar hinj ht l rl (cm r)
+        (by rw [hss]; exact hcm r l hl hp) (A r) (tm r)
+        (by rw [hss]; intro iit hi; exact hgood r iit (hp iit hi))
+      rw [this, hss]
+      exact congrArg some (checkpoint_table_ideal toAurel var.eraseDups hinj' ht' A tm r l)) its]
+  rw [unionKeysOf_const _ hkeys]
+  simp only [activeRestarts_nil_iff]
+  congr 2
+  unfold aligned
+  apply List.map_congr_left
+  intro k hk
+  congr 1
+  apply List.map_congr_left
+  intro p _
+  have hkK : k ∈ "t" :: var.eraseDups.map toAurel := by
+    split at hk
+    · cases hk
+    · exact hk
+  simp [cellOpt, hkK]
 
 end AurelVerif.CheckpointLemmas
